@@ -51,6 +51,11 @@ def main():
     if out.strip():
         print("refusing: /repo has uncommitted changes:\n" + out)
         return 2
+    recheck = "--recheck" in sys.argv and meta.get("confirmation", {}).get("confirmed")
+    if recheck:
+        # a stored change that was confirmed before: only run the checks against it again
+        return run_checks(meta, pid, checks, tier, patch, demo, src, name, dict(meta["confirmation"]),
+                          [l for l in meta.get("what_was_run", []) if not l.startswith("(change applied") and not l.startswith("git -C /repo checkout") and not l.startswith("(re-check")] + ["(re-check of a stored, confirmed change)"])
     sh("git -C /repo worktree remove --force %s; rm -rf %s" % (WT, WT))
     rc, out = sh("git -C /repo worktree add --detach %s HEAD" % WT)
     if rc != 0:
@@ -90,6 +95,10 @@ def main():
     finally:
         sh("git -C /repo worktree remove --force %s; rm -rf %s" % (WT, WT))
 
+    return run_checks(meta, pid, checks, tier, patch, demo, src, name, result, ran)
+
+
+def run_checks(meta, pid, checks, tier, patch, demo, src, name, result, ran):
     detections = {}
     if result["confirmed"]:
         rc, out = sh("git -C /repo apply %s" % patch)
